@@ -239,6 +239,7 @@ TWIN_FUNCS = {
     'C13': [('api', 'ParquetFile._column_filter'), ('api', 'ParquetFile.to_pandas'), ('api', 'ParquetFile.count'), ('core', 'read_col'),
             ('api', 'ParquetFile.read_row_group_file')],
     'C14': [('util', 'metadata_from_many'), ('api', 'ParquetFile.__init__'), ('writer', 'consolidate_categories'), ('writer', 'merge')],
+    'C15': [('core', 'read_col'), ('core', 'read_row_group_arrays'), ('schema', '_is_list_like'), ('schema', '_is_map_like')],
     'C16': [('writer', 'update_file_custom_metadata'), ('util', 'update_custom_metadata'), ('writer', 'write'), ('writer', 'write_thrift'),
             ('api', 'ParquetFile.key_value_metadata')],
     'C17': [('api', 'ParquetFile.pre_allocate'), ('api', '_pre_allocate'), ('api', 'ParquetFile._dtypes'), ('api', 'ParquetFile.to_pandas')],
